@@ -15,7 +15,7 @@ struct ShmObj { int id; std::string name; bool linked; int memfd = -1; size_t si
 struct SockObj;
 enum FdKind { FD_NONE, FD_SHM, FD_SOCK, FD_FILE };
 struct FdEnt {
-  int kind = FD_NONE; ShmObj *shm = nullptr; SockObj *sock = nullptr;
+  int kind = FD_NONE; ShmObj *shm = nullptr; SockObj *sock = nullptr; int realfd = -1;
   bool cloexec = false, nonblock = false, rdonly = false;
   int owner_task = -1; const char *api = nullptr; uint64_t open_seq = 0;
 };
@@ -44,6 +44,7 @@ struct K {
   int last_sem[MAXT], last_shm[MAXT]; bool last_shm_created[MAXT] = {false};
   std::string last_sem_name[MAXT], last_shm_name[MAXT];
   Net *net = nullptr;
+  int files_open = 0, dirs_open = 0, libs_open = 0;
   int faults_off = 0;          // >0 while a scripted raw peer talks to the kernel: no fault injection into its calls
   int default_sndbuf = 65536, default_rcvbuf = 65536; bool net_faults = false;
   K() { for (int i = 0; i < MAXT; i++) { last_sem[i] = -1; last_shm[i] = -1; } }
